@@ -246,6 +246,40 @@ func runC08(c *Check, a *Analysis) {
 	if nt < 2 {
 		c.Undecided("R-TEARDOWN-QUIESCE", fmt.Sprintf("expected two teardown sequences (blocking and poll), found %d", nt))
 	}
+	// the wait group counts a handler from the moment it is queued
+	c.Rule("R-WG-COUNT-AT-QUEUE", "every handler task handed to a queue with the connection's wait group is counted (wg.Add) by the queueing function before the hand-off; a function that does the matching wg.Done never does the Add itself", 3)
+	if srq := p.Fn("(*Server).ServeRequest"); srq != nil {
+		adds := callsIn(srq, "(*sync.WaitGroup).Add")
+		for _, ev := range eventsOf(srq, "(*Server).handleRequest") {
+			cc, isCall := ev.(*ssa.Call)
+			if !isCall || calleeName(cc) == "(*Server).handleRequest" {
+				continue // inline call passes a nil wait group
+			}
+			dom := false
+			for _, ad := range adds {
+				if p.dominatesInstr(ad.(ssa.Instruction), ev) {
+					dom = true
+				}
+			}
+			c.Ob("R-WG-COUNT-AT-QUEUE", sc.key(srq, "wg.Add before the task is queued"), p.InstrPos(ev), dom, ifs(!dom, "a handler task is queued without having been added to the connection's wait group: teardown's wg.Wait() can return (or be re-entered: 'WaitGroup is reused before previous Wait has returned') while accepted requests are still queued"))
+		}
+	}
+	for _, fn := range p.Fns {
+		hasDone := false
+		eachInstr(fn, func(in ssa.Instruction) {
+			if d, ok := in.(*ssa.Defer); ok && calleeNameCommon(d.Common()) == "(*sync.WaitGroup).Done" {
+				hasDone = true
+			}
+			if isCallTo(in, "(*sync.WaitGroup).Done") {
+				hasDone = true
+			}
+		})
+		if !hasDone || !strings.HasPrefix(fname(topParent(fn)), "(*Server).") {
+			continue
+		}
+		nAdd := len(callsIn(fn, "(*sync.WaitGroup).Add"))
+		c.Ob("R-WG-COUNT-AT-QUEUE", sc.key(fn, "Done without Add in the worker"), fn.Pos(), nAdd == 0, ifs(nAdd != 0, "the worker adds itself to the wait group when it starts running: a task that is still queued is not counted"))
+	}
 
 	// ---- R-DROP-AND-CONTINUE
 	c.Rule("R-DROP-AND-CONTINUE", "serve loops do not let a ServeRequest error end the connection; the client reader returns right after a header error without touching a call", 3)
